@@ -1,6 +1,7 @@
 import ParryModel.Proto
 import ParryModel.C17.Model
 import ParryModel.C17.CutModel
+import ParryModel.C17.SplitModel
 /-! C17 protocol handlers: model evaluation at `Float` and exact-`Rat` oracles on implementation output. -/
 namespace C17
 open Model Proto
@@ -725,7 +726,9 @@ def sectionOracle (m : MeshF) (sd : V3 Rat → Rat) (colF : Option (V3 Float →
        let V := (vp.map q3).toArray
        let v := verdictCheck S e t "pair"
        if v != "pass" then v else
-       if segs.any (fun (a, b) => a ≥ V.size || b ≥ V.size || a == b) then "fail bad-segment-index" else
+       -- a zero-length segment `[a, a]` is the chord of a degenerate input triangle (repeated vertex index); otherwise an error
+       let degTri := m.tris.any fun (a, b, c) => a == b || b == c || c == a
+       if segs.any (fun (a, b) => a ≥ V.size || b ≥ V.size || (a == b && !degTri)) then "fail bad-segment-index" else
        if V.toList.any (fun p => rabs (sd p) > e + t * 1000) then "fail polyline-vertex-off-plane" else
        let edges := m.tris.flatMap fun (a, b, c) => [(a, b), (b, c), (c, a)]
        let onMesh (p : V3 Rat) : Bool := edges.any fun (a, b) => onSegment P[a]! P[b]! p scale
@@ -1076,6 +1079,90 @@ def verdictOracle (S : List Rat) (e t : Rat) (o : List String) : String :=
     if r != "pass" then r else one k2
   | _ => "fail unparsable-output"
 
+/-! ### `Aabb::split_at_center` (fu5) -/
+def fboxes (l : List (Aabb3 Float)) : String := l.foldl (fun s b => s ++ " " ++ faabb3 b) (toString l.length)
+def intDisjR (a b : Aabb3 Rat) : Bool :=
+  a.maxs.x ≤ b.mins.x || b.maxs.x ≤ a.mins.x || a.maxs.y ≤ b.mins.y || b.maxs.y ≤ a.mins.y || a.maxs.z ≤ b.mins.z || b.maxs.z ≤ a.mins.z
+def insideR (a b : Aabb3 Rat) : Bool :=
+  b.mins.x ≤ a.mins.x && a.maxs.x ≤ b.maxs.x && b.mins.y ≤ a.mins.y && a.maxs.y ≤ b.maxs.y && b.mins.z ≤ a.mins.z && a.maxs.z ≤ b.maxs.z
+def ptInR (b : Aabb3 Rat) (p : V3 Rat) : Bool :=
+  b.mins.x ≤ p.x && p.x ≤ b.maxs.x && b.mins.y ≤ p.y && p.y ≤ b.maxs.y && b.mins.z ≤ p.z && p.z ≤ b.maxs.z
+def pairsAll {α} (p : α → α → Bool) : List α → Bool
+  | [] => true
+  | x :: r => r.all (p x) && pairsAll p r
+def halfOf (lo hi plo phi : Rat) : Bool := nearR ((hi - lo) / 2) (phi - plo) (1 + rabs lo + rabs hi)
+
+/-- oracle for `Aabb::split_at_center` (3-D), from the definition of an octree split: eight valid boxes inside the input, pairwise
+interior-disjoint, whose volumes add up *exactly* to the input's (so they cover it), every corner and the exact centre of the input
+in some piece, and every piece has half the extent of the input on every axis (tolerance for the one rounding of the centre). -/
+def splitCenterOracle (b : Aabb3 Float) (o : List String) : String :=
+  if !finiteBox b then "skip nonfinite-input" else
+  let B := qaabb3 b
+  if !validBoxR B then "skip invalid-box" else
+  match o with
+  | "panic" :: _ => "fail panic"
+  | _ =>
+  match run (do let l ← plist poaabb3; pend; pure l) o with
+  | none => "fail unparsable-output"
+  | some l =>
+    if l.length != 8 then "fail not-eight-pieces" else
+    if !(l.all finiteBox) then "fail nonfinite-output" else
+    let L := l.map qaabb3
+    if !(L.all validBoxR) then "fail invalid-piece" else
+    if !(L.all (insideR · B)) then "fail piece-outside-box" else
+    if !(pairsAll intDisjR L) then "fail pieces-overlap" else
+    if (L.map volR).sum != volR B then "fail volumes-do-not-add-up" else
+    let ctr : V3 Rat := ⟨(B.mins.x + B.maxs.x) / 2, (B.mins.y + B.maxs.y) / 2, (B.mins.z + B.maxs.z) / 2⟩
+    if !((corners3 B).all fun c => L.any fun p => ptInR p c) then "fail corner-not-covered" else
+    if !(L.all fun p => halfOf B.mins.x B.maxs.x p.mins.x p.maxs.x && halfOf B.mins.y B.maxs.y p.mins.y p.maxs.y &&
+          halfOf B.mins.z B.maxs.z p.mins.z p.maxs.z) then "fail not-split-at-the-centre" else
+    let _ := ctr
+    "pass"
+
+def paabb2' : P (Aabb2 Float) := do let a ← pv2; let b ← pv2; pure ⟨a, b⟩
+def poaabb2' : P (Aabb2 Float) := do let a ← pov2; let b ← pov2; pure ⟨a, b⟩
+def faabb2' (b : Aabb2 Float) : String := s!"{fv2 b.mins} {fv2 b.maxs}"
+def fboxes2 (l : List (Aabb2 Float)) : String := l.foldl (fun s b => s ++ " " ++ faabb2' b) (toString l.length)
+def finite2' (v : V2 Float) : Bool := FloatIO.isFinite v.x && FloatIO.isFinite v.y
+
+/-- oracle for `Aabb::split_at_center` (2-D): four valid boxes inside the input, pairwise interior-disjoint, areas adding up exactly,
+corners covered, half extents. -/
+def splitCenter2Oracle (b : Aabb2 Float) (o : List String) : String :=
+  if !(finite2' b.mins && finite2' b.maxs) then "skip nonfinite-input" else
+  let B : Aabb2 Rat := ⟨q2 b.mins, q2 b.maxs⟩
+  if !(B.mins.x ≤ B.maxs.x && B.mins.y ≤ B.maxs.y) then "skip invalid-box" else
+  match o with
+  | "panic" :: _ => "fail panic"
+  | _ =>
+  match run (do let l ← plist poaabb2'; pend; pure l) o with
+  | none => "fail unparsable-output"
+  | some l =>
+    if l.length != 4 then "fail not-four-pieces" else
+    if !(l.all fun p => finite2' p.mins && finite2' p.maxs) then "fail nonfinite-output" else
+    let L : List (Aabb2 Rat) := l.map fun p => ⟨q2 p.mins, q2 p.maxs⟩
+    let area (p : Aabb2 Rat) : Rat := (p.maxs.x - p.mins.x) * (p.maxs.y - p.mins.y)
+    if !(L.all fun p => p.mins.x ≤ p.maxs.x && p.mins.y ≤ p.maxs.y) then "fail invalid-piece" else
+    if !(L.all fun p => B.mins.x ≤ p.mins.x && p.maxs.x ≤ B.maxs.x && B.mins.y ≤ p.mins.y && p.maxs.y ≤ B.maxs.y) then "fail piece-outside-box" else
+    if !(pairsAll (fun (a c : Aabb2 Rat) => a.maxs.x ≤ c.mins.x || c.maxs.x ≤ a.mins.x || a.maxs.y ≤ c.mins.y || c.maxs.y ≤ a.mins.y) L)
+      then "fail pieces-overlap" else
+    if (L.map area).sum != area B then "fail areas-do-not-add-up" else
+    let cs : List (V2 Rat) := [⟨B.mins.x, B.mins.y⟩, ⟨B.maxs.x, B.mins.y⟩, ⟨B.mins.x, B.maxs.y⟩, ⟨B.maxs.x, B.maxs.y⟩]
+    if !(cs.all fun c => L.any fun p => p.mins.x ≤ c.x && c.x ≤ p.maxs.x && p.mins.y ≤ c.y && c.y ≤ p.maxs.y) then "fail corner-not-covered" else
+    if !(L.all fun p => halfOf B.mins.x B.maxs.x p.mins.x p.maxs.x && halfOf B.mins.y B.maxs.y p.mins.y p.maxs.y)
+      then "fail not-split-at-the-centre" else "pass"
+
+/-! ### frame glue of the mesh ∩ box wrappers (fu5) -/
+def fiso3' (m : Iso3 Float) : String := s!"{ff m.qi} {ff m.qj} {ff m.qk} {ff m.qw} {fv3 m.t}"
+def frameVerdict (o : List String) : String :=
+  match o with
+  | "panic" :: _ => "fail panic"
+  | ["same"] => "pass"
+  | ["diff"] => "fail wrapper-differs-from-inner-function-on-the-transferred-frame"
+  | _ => "fail unparsable-output"
+def boxCorners (he : V3 Rat) : List (V3 Rat) :=
+  [0, 1, 2, 3, 4, 5, 6, 7].map fun k =>
+    ⟨if k % 2 == 0 then -he.x else he.x, if (k / 2) % 2 == 0 then -he.y else he.y, if k / 4 == 0 then -he.z else he.z⟩
+
 def handler (fn : String) : Option Handler :=
   match fn with
   | "aabb_split" => some {
@@ -1367,6 +1454,44 @@ def handler (fn : String) : Option Handler :=
           let (bp, bt) := boxMesh (q3 he)
           -- the result is expressed in the local space of the mesh
           isectOracle (mkSolid s pm) ⟨qiso3 pc, bp, bt, [], facePlanes bp bt⟩ (qiso3 pm) o
+        | none => "skip bad-args" }
+  | "aabb_split_center" => some {
+      model := fun a => run (do let b ← paabb3; pend; pure (fboxes b.splitAtCenter)) a
+      oracle := fun a o => match run (do let b ← paabb3; pend; pure b) a with
+        | some b => splitCenterOracle b o
+        | none => "skip bad-args" }
+  | "aabb2_split_center" => some {
+      model := fun a => run (do let b ← paabb2'; pend; pure (fboxes2 b.splitAtCenter)) a
+      oracle := fun a o => match run (do let b ← paabb2'; pend; pure b) a with
+        | some b => splitCenter2Oracle b o
+        | none => "skip bad-args" }
+  | "cuboid_frame" => some {
+      model := fun a => run (do let _ ← psolid; let pm ← piso3; let _ ← pv3; let pc ← piso3; let lp ← piso3; pend
+                                let lp' := cuboidToLocal pm pc
+                                pure (if fiso3' lp' == fiso3' lp then "same" else s!"pose {fiso3' lp'}")) a
+      oracle := fun a o => match run (do let s ← psolid; let pm ← piso3; let he ← pv3; let pc ← piso3; let lp ← piso3; pend; pure (s, pm, he, pc, lp)) a with
+        | some (s, pm, he, pc, lp) =>
+          if !(s.2.1.all finite3 && finite3 pm.t && finite3 pc.t && finite3 lp.t && finite3 he) then "skip nonfinite-input" else
+          if !(unitQ pm && unitQ pc) then "skip non-unit-quaternion" else
+          let PM := qiso3 pm; let PC := qiso3 pc; let LP := qiso3 lp
+          let sc := 1 + maxAbs3 PM.t + maxAbs3 PC.t + maxAbs3 (q3 he)
+          -- the local pose is the same placement: mesh pose ∘ local pose = cuboid pose on the cuboid's corners (and its centre)
+          if !((⟨0, 0, 0⟩ :: boxCorners (q3 he)).all fun c => nearV3 (PM.act (LP.act c)) (PC.act c) sc) then "fail local-cuboid-pose-is-not-the-same-placement" else
+          frameVerdict o
+        | none => "skip bad-args" }
+  | "aabb_frame" => some {
+      model := fun a => run (do let _ ← psolid; let _ ← piso3; let b ← paabb3; let he ← pv3; let c ← pv3; pend
+                                let r := aabbAsCuboid b
+                                pure (if fv3 r.1 == fv3 he && fv3 r.2.t == fv3 c then "same" else s!"cuboid {fv3 r.1} {fv3 r.2.t}")) a
+      oracle := fun a o => match run (do let s ← psolid; let pm ← piso3; let b ← paabb3; let he ← pv3; let c ← pv3; pend; pure (s, pm, b, he, c)) a with
+        | some (s, pm, b, he, c) =>
+          if !(s.2.1.all finite3 && finite3 pm.t && finiteBox b && finite3 he && finite3 c) then "skip nonfinite-input" else
+          let B := qaabb3 b
+          if !validBoxR B then "skip invalid-box" else
+          let sc := 1 + boxScale B
+          -- centre ± half extents = the box
+          if !(nearV3 ((q3 c).sub (q3 he)) B.mins sc && nearV3 ((q3 c).add (q3 he)) B.maxs sc) then "fail cuboid-is-not-the-box" else
+          frameVerdict o
         | none => "skip bad-args" }
   | _ => none
 
